@@ -638,8 +638,10 @@ C05_BULK_ASSUME = ["meaning of the runtime combinators (which of them have the `
                    "compatibility serializers (stream calls in order; other statements must be declarations / assignments / control flow without stream access), the protocol methods (zz_cppstmt.go)",
                    "model family: record Rec {a, b} with field added / field removed (from the middle) / field a retyped (number -> number) / unchanged, or alias Rec = number retyped, per previous "
                    "version; a over {float32, float64, uint8, complexfloat32, bool, float32*2, int32, string}, b over {float32, uint8, string} (thorough: + float64, complexfloat32, int32); "
-                   "the step is Rec / Rec* / stream of Rec / Rec*3 / Rec? / a record holding Rec*; arrays of changed records are rejected by the evolution analyser (known finding C06)"]
-C05_BULK_BYPASS = (G, "gosym_part", dict(name="c05_compat_bulk_bypass", entry="internal/zzverif.C05BulkBypass", args_quick=(1, 6, 3, 0), args_thorough=(2, 6, 6, 0),
+                   "the step is Rec / Rec* / stream of Rec / Rec*3 / Rec? / a record holding Rec* / string->Rec / a record holding uint32->Rec; a changed record as a map value is rejected by the unchanged "
+                   "evolution analyser (known finding C06): acceptance is not required there, but IF the change is accepted every obligation on the emitted code applies; arrays of changed records "
+                   "are rejected as well and are not in the family"]
+C05_BULK_BYPASS = (G, "gosym_part", dict(name="c05_compat_bulk_bypass", entry="internal/zzverif.C05BulkBypass", args_quick=(1, 8, 3, 0), args_thorough=(2, 8, 6, 0),
                                extra_thorough=("-max-paths", "400000"), key_fn=c05_bulk_key,
                                required_sites=("documented-compatible-changes-accepted", "emitters-total", "only-known-statement-forms", "only-known-serializer-forms",
                                                "bulk-path-preserves-element-function"),
@@ -650,7 +652,7 @@ C05_BULK_BYPASS = (G, "gosym_part", dict(name="c05_compat_bulk_bypass", entry="i
                                     "compatibility alias resolves to, i.e. the CURRENT definition) is trivially serializable by the runtime's and the generator's own rules, the memcpy image of T is "
                                     "exactly the wire plan the element function F reads / writes; otherwise the previous version's compatibility serializer is never called and sizeof(current T) bytes "
                                     "per element are read from / written to a stream laid out for the previous version"))
-C05_STRUCT_PLANS = (G, "gosym_part", dict(name="c05_compat_struct_plans", entry="internal/zzverif.C05BulkBypass", args_quick=(1, 6, 3, 1), args_thorough=(2, 6, 6, 1),
+C05_STRUCT_PLANS = (G, "gosym_part", dict(name="c05_compat_struct_plans", entry="internal/zzverif.C05BulkBypass", args_quick=(1, 8, 3, 1), args_thorough=(2, 8, 6, 1),
                                extra_thorough=("-max-paths", "400000"), key_fn=c05_bulk_key,
                                required_sites=("documented-compatible-changes-accepted", "emitters-total", "only-known-statement-forms", "only-known-serializer-forms",
                                                "value-step-writes-one-value", "value-step-reads-one-value", "single-write-is-one-block", "batch-writes-every-item-once",
